@@ -39,10 +39,11 @@ def _describe(obj) -> tuple:
         if name == 'SUBMIT':
             a = getattr(payload, 'return_address', None)
             if a is not None:
-                return (name, tuple(a))
+                return (name, tuple(a), _parent(payload))
             return (name, 'comp', str(getattr(payload, 'task_id', '?')))
         if name == 'SUBMIT_BATCH':
-            return (name, tuple(tuple(t.return_address) for t in payload))
+            return (name, tuple(tuple(t.return_address) for t in payload),
+                    tuple(_parent(t) for t in payload))
         if name == 'RESULT':
             if hasattr(payload, 'return_address'):
                 return (name, tuple(payload.return_address),
@@ -74,6 +75,11 @@ def _describe(obj) -> tuple:
     except Exception:
         pass
     return (name,)
+
+
+def _parent(task):
+    bc = getattr(task, 'breadcrumbs', ())
+    return tuple(bc[-1]) if bc else None
 
 
 def _last_line(s) -> str:
